@@ -1,0 +1,77 @@
+//go:build verif
+
+package version
+
+import (
+	"fmt"
+	"os"
+
+	"github.com/lindb/lindb/pkg/bufioutil"
+)
+
+// VerifC01SetIO replaces the package-level I/O seams used by the version set (manifest writer,
+// CURRENT.tmp write, rename). A nil argument keeps the current function. It returns a function
+// restoring the previous seams. Verification hook (C01): no production code path calls it.
+func VerifC01SetIO(
+	newWriter func(fileName string) (bufioutil.BufioWriter, error),
+	writeFile func(name string, data []byte, perm os.FileMode) error,
+	rename func(oldPath, newPath string) error,
+) (restore func()) {
+	oldW, oldWF, oldR := newBufferWriterFunc, writeFileFunc, renameFunc
+	if newWriter != nil {
+		newBufferWriterFunc = newWriter
+	}
+	if writeFile != nil {
+		writeFileFunc = writeFile
+	}
+	if rename != nil {
+		renameFunc = rename
+	}
+	return func() {
+		newBufferWriterFunc, writeFileFunc, renameFunc = oldW, oldWF, oldR
+	}
+}
+
+// VerifC01Unmarshal decodes one manifest record with the production decoder.
+func VerifC01Unmarshal(record []byte) (EditLog, error) {
+	el := newEmptyEditLog()
+	if err := el.unmarshal(record); err != nil {
+		return nil, err
+	}
+	return el, nil
+}
+
+// VerifC01Marshal encodes an edit log with the production encoder.
+func VerifC01Marshal(el EditLog) ([]byte, error) { return el.marshal() }
+
+// VerifC01LogToken renders one log in the harness's canonical token form
+// (kind,field,field,...; the store name of reference logs in hex).
+func VerifC01LogToken(l Log) string {
+	switch v := l.(type) {
+	case *newFile:
+		return fmt.Sprintf("nf,%d,%d,%d,%d,%d", v.level, v.file.fileNumber, v.file.minKey, v.file.maxKey, v.file.fileSize)
+	case *deleteFile:
+		return fmt.Sprintf("df,%d,%d", v.level, v.fileNumber)
+	case *nextFileNumber:
+		return fmt.Sprintf("next,%d", v.fileNumber)
+	case *newRollupFile:
+		return fmt.Sprintf("nr,%d,%d", v.fileNumber, int64(v.interval))
+	case *deleteRollupFile:
+		return fmt.Sprintf("dr,%d,%d", v.fileNumber, int64(v.interval))
+	case *newReferenceFile:
+		return fmt.Sprintf("nref,%x,%d,%d", []byte(v.store), v.familyID, v.fileNumber)
+	case *deleteReferenceFile:
+		return fmt.Sprintf("dref,%x,%d,%d", []byte(v.store), v.familyID, v.fileNumber)
+	case *sequence:
+		return fmt.Sprintf("seq,%d,%d", v.leader, v.seq)
+	}
+	return fmt.Sprintf("unknown,%T", l)
+}
+
+// VerifC01CurrentFileName returns the name of the CURRENT file.
+func VerifC01CurrentFileName() string { return current() }
+
+// VerifC01NextFileNumber reads the next file number without allocating it.
+func VerifC01NextFileNumber(vs StoreVersionSet) int64 {
+	return vs.(*storeVersionSet).nextFileNumber.Load()
+}
